@@ -33,7 +33,15 @@ Sampled (seeded): undirected and directed hypergraphs on 3..7 nodes, labels 0..N
 integers, hyperedge sizes 1..6, isolated nodes, weighted and unweighted, dyadic-dense ones for the ESU pass; every
 permutation of the labels when N <= 5, else 30 random ones (order 4: 10 in quick); 10 insertion orders (hyperedge order,
 node order inside a hyperedge, constructor vs add_edge, isolated nodes first / last); hyperedges larger than the order
-added to an existing hypergraph.
+added to an existing hypergraph.  Budgets are counts, quick / thorough:
+  order 3 and directed (a call costs < 1 ms): 300 / 4000 undirected and 200 / 3000 directed random hypergraphs, each
+    with ALL of the variants above (directed ones for both orders);
+  order 4 undirected (a call costs ~0.45 s because the implementation rebuilds its 171-class table three times per
+    call; ~520 / ~9300 calls in total): census of 60 / 1500 random hypergraphs; all 119 non-identity permutations of
+    1 / 6 random 5-node hypergraphs and 10 / 30 random permutations of 4 / 40 on 6..7 nodes; 10 insertion orders of
+    4 / 80; larger hyperedges added to 6 / 100.
+A few degenerate inputs (empty, isolated nodes only, singleton hyperedges only, fewer nodes than the order) are run for
+both functions and both orders.
 
 Limits.  Bounded evidence only: N <= 7 nodes.  Non-integer labels are outside the quantifier and not tried.  The
 configuration-model part of the output (runs_config_model > 0) is not C11.  The statement gives no definition of WHICH
@@ -756,10 +764,10 @@ def _plan(ctx):
         p5 = _possible_u(5, 2, 4)
         for idx in _index_sets(len(p5), 3):
             heavy.append(dict(kind="u", order=4, edges=[p5[i] for i in idx], isolated=[], weighted=False, census=True))
-    for _ in range(100 if q else 1500):  # random census (sizes 1..6, isolated, weighted, odd labels)
+    for _ in range(60 if q else 1500):  # random census (sizes 1..6, isolated, weighted, odd labels)
         g = _random_u(rng, 4, 7)
         heavy.append(dict(kind="u", order=4, census=True, **g))
-    n5, nbig, nperm = (1, 6, 10) if q else (6, 40, 30)
+    n5, nbig, nperm = (1, 4, 10) if q else (6, 40, 30)
     made5 = madebig = 0
     while made5 < n5 or madebig < nbig:  # relabelling
         g = _random_u(rng, 5, 7)
@@ -776,12 +784,12 @@ def _plan(ctx):
             continue
         for i, ch in enumerate(_chunks(maps, 15)):
             heavy.append(dict(kind="u", order=4, census=(i == 0), maps=ch, **g))
-    for _ in range(6 if q else 80):  # insertion order
+    for _ in range(4 if q else 80):  # insertion order
         g = _random_u(rng, 4, 7)
         if not _census(4, g["edges"], g["isolated"]):
             g = _random_u(rng, 4, 6)
         heavy.append(dict(kind="u", order=4, census=True, shuffles=_shuffles_u(rng, g["edges"], 10), **g))
-    for _ in range(10 if q else 100):  # larger hyperedges ignored
+    for _ in range(6 if q else 100):  # larger hyperedges ignored
         g = _random_u(rng, 4, 6)
         g["edges"] = [e for e in g["edges"] if len(e) <= 4]
         nodes = set(v for e in g["edges"] for v in e) | set(g["isolated"])
@@ -808,7 +816,7 @@ def _plan(ctx):
     for ch in _chunks(_index_sets(len(p53), 4 if q else 7), 1024):
         light.append(dict(kind="xu", order=3, n=5, possible=p53, subsets=ch, seed=seed, all_maps=False, n_shuffles=0,
                           singletons=[[]]))
-    for _ in range(400 if q else 4000):
+    for _ in range(300 if q else 4000):
         g = _random_u(rng, 3, 7)
         nodes = set(v for e in g["edges"] for v in e) | set(g["isolated"])
         base = [e for e in g["edges"] if len(e) <= 3]
@@ -821,6 +829,15 @@ def _plan(ctx):
         light.append(dict(kind="u", order=3, census=True, edges=base, isolated=g["isolated"], weighted=g["weighted"],
                           extras=[[e for e in g["edges"] if len(e) > 3]] if len(base) < len(g["edges"]) else []))
 
+    # ---- degenerate inputs (registered as trivial cases: their census is identically zero)
+    for order in (3, 4):
+        for g in (dict(edges=[], isolated=[]), dict(edges=[], isolated=[4, 2, 9, 7, 1]), dict(edges=[[3], [5], [8]], isolated=[]),
+                  dict(edges=[[1, 2]], isolated=[]), dict(edges=[[6, 2], [2, 4], [2, 4, 6]], isolated=[])):
+            light.append(dict(kind="u", order=order, census=True, weighted=False, **g))
+        for g in (dict(edges=[], isolated=[]), dict(edges=[], isolated=[4, 2, 9, 7, 1]), dict(edges=[[[1], [2]]], isolated=[5, 6]),
+                  dict(edges=[[[1], [2]], [[2], [3]], [[3], [1]]], isolated=[])):
+            light.append(dict(kind="d", order=order, **g))
+
     # ---- directed
     pd3 = _possible_d(3)
     for ch in _chunks([tuple(i for i in range(12) if m >> i & 1) for m in range(4096)], 128):
@@ -829,7 +846,7 @@ def _plan(ctx):
     for order in (3, 4):
         for ch in _chunks(_index_sets(len(pd4), 2 if q else 3), 64):
             light.append(dict(kind="xd", order=order, n=4, possible=pd4, subsets=ch, seed=seed, n_shuffles=1 if q else 2))
-    for _ in range(300 if q else 3000):
+    for _ in range(200 if q else 3000):
         g = _random_d(rng, 3, 7)
         nodes = set(v for s, t in g["edges"] for v in s + t) | set(g["isolated"])
         for order in (3, 4):
